@@ -240,6 +240,25 @@ func VerifH09d() {
 	if nc == 2 {
 		vReach("two-columns")
 	}
+	// a column derived from one that has been described already (a copy of the
+	// described element with another name, type and width — how a handler
+	// builds one statement's columns from a catalogue entry) is described by its
+	// own fields
+	{
+		d := cols[0]
+		dn := nondetBytes(1 + vChoose(2))
+		vAssume(vNoNUL(dn))
+		d.Name, d.Oid, d.Width = string(dn), oid.Oid(nondetU32()), int16(nondetU16())
+		conn.out = nil
+		vAssert("define-derived-ok", Columns{d}.Define(ctx, w, nil) == nil)
+		dm, dok := vFrames(conn.out)
+		vAssert("derived-one-RowDescription", dok && len(dm) == 1 && dm[0].typ == 'T' && vBodyOK(dm[0]))
+		b := dm[0].body
+		j := vCString(b, 2)
+		vAssert("derived-column-described-by-its-own-fields", j > 0 && vEqBytes(b[2:j-1], dn) &&
+			vBE32(b, j+6) == uint32(d.Oid) && vBE16(b, j+10) == int(uint16(d.Width)))
+		vReach("column-derived-from-a-described-one")
+	}
 	// no columns: nothing is written (NoData is the Describe path's business)
 	conn.out = nil
 	vAssert("define-nothing-for-no-columns", Columns(nil).Define(ctx, w, nil) == nil && len(conn.out) == 0)
